@@ -1,5 +1,6 @@
 from __future__ import annotations
 
+from copy import copy
 from dataclasses import MISSING
 from functools import wraps
 from typing import TYPE_CHECKING, Callable, Union, cast
@@ -40,6 +41,10 @@ def process_patterned_date_time(func: Callable) -> Callable:
         def class_method_wrapper(cls, tp: TypeInfo, extras: Extras):
             # Process pattern if it exists in extras
             if (pb := extras.get('pattern')) is not None:
+                # one `Pattern` object can annotate positions of different
+                # types, e.g. `dict[date, time]` or two fields, so bind
+                # the type to a copy rather than to the shared object.
+                pb = copy(pb)
                 pb.base = cast(type[DT], tp.origin)
                 tp.origin = cast(type, pb)
                 return pb.load_to_pattern(tp, extras)
@@ -54,6 +59,10 @@ def process_patterned_date_time(func: Callable) -> Callable:
         def static_method_wrapper(tp: TypeInfo, extras: Extras):
             # Process pattern if it exists in extras
             if (pb := extras.get('pattern')) is not None:
+                # one `Pattern` object can annotate positions of different
+                # types, e.g. `dict[date, time]` or two fields, so bind
+                # the type to a copy rather than to the shared object.
+                pb = copy(pb)
                 pb.base = cast(type[DT], tp.origin)
                 tp.origin = cast(type, pb)
                 return pb.load_to_pattern(tp, extras)
